@@ -426,8 +426,15 @@ def derived(draw):
     b = draw(st.sampled_from(BASES))
     q = draw(st.sampled_from(["", "", "const ", "volatile "]))
     decl = ""
-    for _ in range(draw(st.integers(0, 3))):
-        k = draw(st.sampled_from(["ptr", "ptr", "array", "func", "cptr"]))
+    ks = [draw(st.sampled_from(["ptr", "ptr", "array", "func", "cptr"])) for _ in range(draw(st.integers(0, 3)))]
+    # the derivation next to the identifier is the outermost type.  gcc and clang treat the qualifiers of the element type of
+    # a top-level array as "top-level" for the builtin (C11 does not): such element qualifiers are not generated
+    i = 0
+    while i < len(ks) and ks[i] == "array":
+        i += 1
+    if 0 < i < len(ks) and ks[i] == "cptr":
+        ks[i] = "ptr"
+    for k in ks:
         if k == "ptr":
             decl = "*" + decl
         elif k == "cptr":
